@@ -968,7 +968,7 @@ struct R {
 
 fn load_fixture() -> (Vec<u8>, PackageDefinition) {
     let code = include_bytes!("../../assets/c08/role_assignment.wasm").to_vec();
-    let def: PackageDefinition = manifest_decode(include_bytes!("../../assets/c08/role_assignment.rpd")).unwrap();
+    let def: PackageDefinition = manifest_decode::<ManifestPackageDefinition>(include_bytes!("../../assets/c08/role_assignment.rpd")).unwrap().try_into_typed().unwrap();
     (code, def)
 }
 
